@@ -186,6 +186,8 @@ pub fn c12(ctx: &Ctx) -> PropResult {
         let k = 1 + g.rng.below(4);
         all_programs.push(("random", g.program(k)));
     }
+    // (appended) a native object displays the same text on every run and in every mode
+    all_programs.push(("ok", "IMPORT MOD \"MAP\"\nIMPORT MOD \"ROBOT\"\nm <- MAP()\nDISPLAY(m)\nDISPLAY(\"x\" + m)\nDISPLAY([m, MAP()])\nr <- ROBOT_MAP(\"n\")\nDISPLAY(r)\n".into()));
     // (appended) backslash sequences inside string literals reach the lexer as written in every mode; a DISPLAYF that
     // fails has displayed nothing of its line
     all_programs.push(("bytes", "DISPLAY(\"C:\\\\users\\\\nina\")\nDISPLAY(\"a\\nb\")\nDISPLAY(\"t\\\\tx\")\n".into()));
@@ -424,7 +426,7 @@ pub fn c12(ctx: &Ctx) -> PropResult {
     let stats = collect(verdicts);
     PropResult {
         stats,
-        rule: format!("{} programs (succeeding, lexical / syntax / runtime errors, robot-wall termination, reading INPUT, imports with a bracketed list, random programs) x {{file, -e, --eval-stdin}} x six --debug modes x --check x stdin empty / two lines; the real binary built from /repo without the hook feature is spawned twice per configuration; compared with the model's decision: exit status zero / non-zero, standard-output bytes, diagnostics present on standard error; implementation-only: --check prints nothing, two runs agree; the empty, blank, newline-only, comment-only and `;` programs in every mode, -e included; --check together with every --debug mode (nothing on standard output, nothing executed: a program that creates a file); EXPORT in programs nobody imports; a program in a sub-directory using cwd-relative FS paths, before and after importing a module from elsewhere; statements after RETURN in the same block; backslash sequences inside string literals in every mode; a failing DISPLAYF after text", all_programs.len()),
+        rule: format!("{} programs (succeeding, lexical / syntax / runtime errors, robot-wall termination, reading INPUT, imports with a bracketed list, random programs) x {{file, -e, --eval-stdin}} x six --debug modes x --check x stdin empty / two lines; the real binary built from /repo without the hook feature is spawned twice per configuration; compared with the model's decision: exit status zero / non-zero, standard-output bytes, diagnostics present on standard error; implementation-only: --check prints nothing, two runs agree; the empty, blank, newline-only, comment-only and `;` programs in every mode, -e included; --check together with every --debug mode (nothing on standard output, nothing executed: a program that creates a file); EXPORT in programs nobody imports; a program in a sub-directory using cwd-relative FS paths, before and after importing a module from elsewhere; statements after RETURN in the same block; backslash sequences inside string literals in every mode; a failing DISPLAYF after text; native objects displayed", all_programs.len()),
         exhaustive: false,
         notes: vec![format!("binary: {BINARY}")],
     }
@@ -881,6 +883,9 @@ pub fn c13(ctx: &Ctx) -> PropResult {
     for (lib, main) in crate::props6::module_duplicate_names() {
         trees.push((main, vec![("lib.ap".to_string(), lib)], "duplicate-names".to_string()));
     }
+    for (lib, main) in crate::props6::offset_collision_family() {
+        trees.push((main, vec![("lib.ap".to_string(), lib)], "offset-collision".to_string()));
+    }
     for (lib, main) in crate::props6::repeated_import_execution() {
         trees.push((main, vec![("lib.ap".to_string(), lib)], "repeated-import-execution".to_string()));
     }
@@ -1069,7 +1074,7 @@ pub fn c13(ctx: &Ctx) -> PropResult {
     stats.merge(collect(raw_verdicts));
     PropResult {
         stats,
-        rule: "library imports: for every module of the live registry the forms IMPORT MOD, IMPORT \"f\" FROM MOD (several names), IMPORT [f, g] FROM MOD, an unknown name, an unknown module; after each, every procedure name of the whole registry is probed without running it (a call with one argument too many: the label is the argument list iff the name is defined, the name iff it is not) and the importer's variable is displayed; user modules: generated files in the importer's directory or sub-directories with top-level output, a module variable, two exported procedures (one calling the other), a private procedure, optionally a runtime / syntax / lexical error or a nested import relative to the module's own directory; imported whole, by one name, by a list, by a private name, twice; probes for exported / private / module-variable / nested names and the importer's variables; in-process with the model given the same file tree; modules declaring one name several times (exported / private in every order) under every import form; module top-level code calling what only its importer imported or declared; ordered pairs and triples of imports of one module (whole / one name / another / a list, the second also in a loop); trees with symbolic links (program, module, directory reached through a link); a procedure called last before and first after an IMPORT that installs another procedure of that name; a program's procedure named like a module's, called before and after the import; EXPORT at every nesting; selective lists of 3 .. 40 names; an IMPORT statement executed several times (loop, procedure called twice)".into(),
+        rule: "library imports: for every module of the live registry the forms IMPORT MOD, IMPORT \"f\" FROM MOD (several names), IMPORT [f, g] FROM MOD, an unknown name, an unknown module; after each, every procedure name of the whole registry is probed without running it (a call with one argument too many: the label is the argument list iff the name is defined, the name iff it is not) and the importer's variable is displayed; user modules: generated files in the importer's directory or sub-directories with top-level output, a module variable, two exported procedures (one calling the other), a private procedure, optionally a runtime / syntax / lexical error or a nested import relative to the module's own directory; imported whole, by one name, by a list, by a private name, twice; probes for exported / private / module-variable / nested names and the importer's variables; in-process with the model given the same file tree; modules declaring one name several times (exported / private in every order) under every import form; module top-level code calling what only its importer imported or declared; ordered pairs and triples of imports of one module (whole / one name / another / a list, the second also in a loop); trees with symbolic links (program, module, directory reached through a link); a procedure called last before and first after an IMPORT that installs another procedure of that name; a program's procedure named like a module's, called before and after the import; EXPORT at every nesting; selective lists of 3 .. 40 names; an IMPORT statement executed several times (loop, procedure called twice); a sweep of importer layouts that puts its calls on the byte offsets of the module's calls".into(),
         exhaustive: false,
         notes: vec!["exported procedures that call a procedure the importer did not import are the known finding (see known_findings.txt); the generator imports the whole module whenever an exported procedure calls another one".into()],
     }
@@ -1472,6 +1477,7 @@ pub fn c18(ctx: &Ctx) -> PropResult {
     programs.push(("remarkable".into(), "a <- [1]\nDISPLAY(\"A\")\nAPPEND(a, a)\nINSERT(a, 1, a)\nDISPLAY(LENGTH(a))\nDISPLAY(\"B\")\n".into()));
     programs.push(("remarkable".into(), "PROCEDURE f(a, a) {\nRETURN a\n}\nDISPLAY(f(1, 2))\nprocedure g(x, y, x) {\nreturn x\n}\nDISPLAY(g(1, 2, 3))\n".into()));
     programs.push(("remarkable".into(), format!("{all_imports}unused <- 5\nx <- 1\nDISPLAY(x == x)\nIF (TRUE) {{\n}}\nREPEAT 0 TIMES {{\n}}\nx <- x\nDISPLAY(\"B\")\n")));
+    programs.push(("remarkable".into(), "x <- 1\nDISPLAY(NOT x == 2)\nDISPLAY(NOT x != 1)\nDISPLAY(NOT x AND x)\nDISPLAY(-x == 0 - 1)\nDISPLAY(x == x == TRUE)\nIF (NOT x == 0) {\nDISPLAY(\"B\")\n}\nDISPLAY(1 + 2 * 3 - 4 / 2 MOD 3)\n".into()));
     programs.push(("ROBOT.legacy-move".into(), format!("{all_imports}rb <- ROBOT_MAP(\"e..\")\nDISPLAY(\"A\")\nDISPLAY(MOVE_FOWARD(rb))\nDISPLAY(MOVE_FOWARD(rb))\nDISPLAY(MOVE_FORWARD(rb))\nDISPLAY(\"B\")\n")));
     // single-threaded, with the process's own descriptors 1 and 2 captured
     let mut d = Driver::spawn(&ctx.driver);
